@@ -275,8 +275,12 @@ func (e *Ev) record(kind string, js []byte, o *Obs) {
 		}
 	}
 	// samples: first 3 per process, then a deterministic reservoir of 5
-	if len(js) > 500 {
-		js = nil
+	if len(js) > 4000 && len(e.samplesFirst) >= 3 {
+		js = nil // large cases: only among the first three samples (written out in full up to 20 kB)
+	}
+	if len(js) > 20000 {
+		trunc, _ := json.Marshal(string(js[:2000]) + fmt.Sprintf("...(case of %d bytes, truncated)", len(js)))
+		js = trunc
 	}
 	if js != nil {
 		wrapped, _ := json.Marshal(map[string]any{"kind": kind, "case": json.RawMessage(js)})
